@@ -27,9 +27,9 @@ theorem areasOf_good_R1 {c : Ctx} {f : Feat} (hf : featOK c f = true) (h gid : I
   · simp [areasOf, hcr, hrc]
   · cases kind
     · -- protocluster: needs the core
-      obtain ⟨k0, k1, k2, k3⟩ := proto_core hf rfl
-      simp only at k0 k1 k2 k3
-      rcases core_cases k0 k1 k2 k3 with
+      obtain ⟨k0, k1, k2, k3, k4⟩ := proto_core hf rfl
+      simp only at k0 k1 k2 k3 k4
+      rcases core_cases k0 k1 k2 k3 k4 with
         ⟨p', q, hp', hq, g1, g2, g3⟩ | ⟨s, e, q, hp', _⟩ | ⟨s, e, cs, ce, hp', _⟩
       · try simp only at hp' hq
         cases hp'
@@ -42,7 +42,7 @@ theorem areasOf_good_R1 {c : Ctx} {f : Feat} (hf : featOK c f = true) (h gid : I
 /-- whole-record circular region, origin-spanning feature: two halves -/
 theorem areasOf_good_R2 {c : Ctx} {f : Feat} (hf : featOK c f = true) (h gid : Int)
     (st : Strand) (s e : Int) (hr : c.region = .simple ⟨0, c.L, st⟩) (hcirc : c.circular = true)
-    (hp : f.loc = .compound [⟨s, c.L, .fwd⟩, ⟨0, e, .fwd⟩]) (he1 : 0 < e) (he2 : e < s) (he3 : s < c.L) :
+    (hp : f.loc = .compound [⟨s, c.L, .fwd⟩, ⟨0, e, .fwd⟩]) (he1 : 0 < e) (he2 : e ≤ s) (he3 : s < c.L) :
     ∃ as, areasOf c f h gid = some as ∧ Good c f h gid as := by
   obtain ⟨region, L, circ⟩ := c
   obtain ⟨loc, kind, core, single, product⟩ := f
@@ -53,10 +53,10 @@ theorem areasOf_good_R2 {c : Ctx} {f : Feat} (hf : featOK c f = true) (h gid : I
   have hrc : Ctx.regionCrosses ⟨.simple ⟨0, L, st⟩, L, true⟩ = false := by simp [Ctx.regionCrosses, Loc.parts]
   have hext : Ctx.extend ⟨.simple ⟨0, L, st⟩, L, true⟩ = true := by simp [Ctx.extend, hrc]
   cases kind
-  · obtain ⟨k0, k1, k2, k3⟩ := proto_core hf rfl
-    simp only at k0 k1 k2 k3
-    rcases core_cases k0 k1 k2 k3 with
-      ⟨p', q, hp', _⟩ | ⟨s', e', q, hp', hq, g1, g2⟩ | ⟨s', e', cs, ce, hp', hq, g1, g2, g3, g4⟩
+  · obtain ⟨k0, k1, k2, k3, k4⟩ := proto_core hf rfl
+    simp only at k0 k1 k2 k3 k4
+    rcases core_cases k0 k1 k2 k3 k4 with
+      ⟨p', q, hp', _⟩ | ⟨s', e', q, hp', hq, g1, g2⟩ | ⟨s', e', cs, ce, hp', hq, g1, g2, g3, g4, g5⟩
     · simp at hp'
     · try simp only at hp' hq
       cases hp'
@@ -89,7 +89,7 @@ theorem areasOf_good_R2 {c : Ctx} {f : Feat} (hf : featOK c f = true) (h gid : I
 /-- origin-spanning region, simple feature: unchanged before the origin, shifted by `L` after it -/
 theorem areasOf_good_R3 {c : Ctx} {f : Feat} (hf : featOK c f = true) (h gid : Int)
     (S E : Int) (p : Part) (hr : c.region = .compound [⟨S, c.L, .fwd⟩, ⟨0, E, .fwd⟩])
-    (hcirc : c.circular = true) (hE1 : 0 < E) (hE2 : E < S) (hE3 : S < c.L)
+    (hcirc : c.circular = true) (hE1 : 0 < E) (hE2 : E ≤ S) (hE3 : S < c.L)
     (hp : f.loc = .simple p) (h2 : p.lo < p.hi)
     (h3 : (S ≤ p.lo ∧ p.hi ≤ c.L) ∨ (0 ≤ p.lo ∧ p.hi ≤ E)) :
     ∃ as, areasOf c f h gid = some as ∧ Good c f h gid as := by
@@ -113,9 +113,9 @@ theorem areasOf_good_R3 {c : Ctx} {f : Feat} (hf : featOK c f = true) (h gid : I
     refine ⟨[Area.fromFeature ⟨.simple p, kind, core, single, product⟩ h], ?_, ?_⟩
     · simp [areasOf, hcr, hext, hlast, hin]
     · cases kind
-      · obtain ⟨k0, k1, k2, k3⟩ := proto_core hf rfl
-        simp only at k0 k1 k2 k3
-        rcases core_cases k0 k1 k2 k3 with
+      · obtain ⟨k0, k1, k2, k3, k4⟩ := proto_core hf rfl
+        simp only at k0 k1 k2 k3 k4
+        rcases core_cases k0 k1 k2 k3 k4 with
           ⟨p', q, hp', hq, g1, g2, g3⟩ | ⟨s, e, q, hp', _⟩ | ⟨s, e, cs, ce, hp', _⟩
         · cases hp'
           subst hq
@@ -130,9 +130,9 @@ theorem areasOf_good_R3 {c : Ctx} {f : Feat} (hf : featOK c f = true) (h gid : I
     refine ⟨[(Area.fromFeature ⟨.simple p, kind, core, single, product⟩ h).offset L], ?_, ?_⟩
     · simp [areasOf, hcr, hext, hlast, hin, hrc]
     · cases kind
-      · obtain ⟨k0, k1, k2, k3⟩ := proto_core hf rfl
-        simp only at k0 k1 k2 k3
-        rcases core_cases k0 k1 k2 k3 with
+      · obtain ⟨k0, k1, k2, k3, k4⟩ := proto_core hf rfl
+        simp only at k0 k1 k2 k3 k4
+        rcases core_cases k0 k1 k2 k3 k4 with
           ⟨p', q, hp', hq, g1, g2, g3⟩ | ⟨s, e, q, hp', _⟩ | ⟨s, e, cs, ce, hp', _⟩
         · cases hp'
           subst hq
@@ -144,8 +144,8 @@ theorem areasOf_good_R3 {c : Ctx} {f : Feat} (hf : featOK c f = true) (h gid : I
 /-- origin-spanning region, origin-spanning feature: one area continuing past `L` -/
 theorem areasOf_good_R5 {c : Ctx} {f : Feat} (hf : featOK c f = true) (h gid : Int)
     (S E s e : Int) (hr : c.region = .compound [⟨S, c.L, .fwd⟩, ⟨0, E, .fwd⟩])
-    (hcirc : c.circular = true) (hE1 : 0 < E) (hE2 : E < S) (hE3 : S < c.L)
-    (hp : f.loc = .compound [⟨s, c.L, .fwd⟩, ⟨0, e, .fwd⟩]) (he1 : 0 < e) (he2 : e < s) (he3 : s < c.L)
+    (hcirc : c.circular = true) (hE1 : 0 < E) (hE2 : E ≤ S) (hE3 : S < c.L)
+    (hp : f.loc = .compound [⟨s, c.L, .fwd⟩, ⟨0, e, .fwd⟩]) (he1 : 0 < e) (he2 : e ≤ s) (he3 : s < c.L)
     (hs : S ≤ s) (he : e ≤ E) :
     ∃ as, areasOf c f h gid = some as ∧ Good c f h gid as := by
   obtain ⟨region, L, circ⟩ := c
@@ -159,10 +159,10 @@ theorem areasOf_good_R5 {c : Ctx} {f : Feat} (hf : featOK c f = true) (h gid : I
   have hext : Ctx.extend ⟨.compound [⟨S, L, .fwd⟩, ⟨0, E, .fwd⟩], L, true⟩ = true := by
     simp [Ctx.extend, hrc]
   cases kind
-  · obtain ⟨k0, k1, k2, k3⟩ := proto_core hf rfl
-    simp only at k0 k1 k2 k3
-    rcases core_cases k0 k1 k2 k3 with
-      ⟨p', q, hp', _⟩ | ⟨s', e', q, hp', hq, g1, g2⟩ | ⟨s', e', cs, ce, hp', hq, g1, g2, g3, g4⟩
+  · obtain ⟨k0, k1, k2, k3, k4⟩ := proto_core hf rfl
+    simp only at k0 k1 k2 k3 k4
+    rcases core_cases k0 k1 k2 k3 k4 with
+      ⟨p', q, hp', _⟩ | ⟨s', e', q, hp', hq, g1, g2⟩ | ⟨s', e', cs, ce, hp', hq, g1, g2, g3, g4, g5⟩
     · simp at hp'
     · cases hp'
       subst hq
